@@ -60,7 +60,14 @@ enum Step {
     /// become leader if necessary (own election, a granted vote, one successful append answer), then propose
     LeadAndPropose,
     /// install a snapshot holding the node's log plus k new entries, then a heartbeat from that leader
-    InstallSnapshot { dterm: u8, extra: i8 },
+    InstallSnapshot {
+        dterm: u8,
+        extra: i8,
+        /// number of trailing UNCOMMITTED entries of the node's log that the snapshot holds in a
+        /// newer term instead (the node kept a deposed leader's suffix; the snapshot overwrites it)
+        #[serde(default)]
+        rewrite: u8,
+    },
 }
 
 #[derive(Clone, Debug, Serialize, Deserialize)]
@@ -92,7 +99,7 @@ fn step_strategy() -> impl Strategy<Value = Step> {
         2 => (1u8..3).prop_map(Step::AckArrives),
         3 => Just(Step::Propose),
         3 => Just(Step::LeadAndPropose),
-        2 => (0u8..3, -2i8..3).prop_map(|(dterm, extra)| Step::InstallSnapshot { dterm, extra }),
+        2 => (0u8..3, -2i8..3, prop_oneof![3 => Just(0u8), 2 => 1u8..4]).prop_map(|(dterm, extra, rewrite)| Step::InstallSnapshot { dterm, extra, rewrite }),
     ]
 }
 
@@ -374,11 +381,26 @@ impl Driver {
                     Err(_) => Outcome::Election,
                 }
             },
-            Step::InstallSnapshot { dterm, extra } => {
-                let t = (term + *dterm as u64).max(last_term).max(1);
+            Step::InstallSnapshot { dterm, extra, rewrite } => {
+                let mut t = (term + *dterm as u64).max(last_term).max(1);
                 // extra > 0: the node's log plus new entries; extra <= 0: a snapshot of the committed
                 // prefix that is shorter than the node's log (its uncommitted tail is dropped)
                 let mut entries: Vec<LogEntry> = log.iter().map(|e| e.0.clone()).collect();
+                // rewrite > 0: the snapshot's leader never had the node's uncommitted suffix; it holds
+                // entries of a newer term at those indices
+                let mut first_rewritten = None;
+                if *rewrite > 0 && *extra > 0 {
+                    let commit = self.node.commit_index() as usize;
+                    let from = entries.len().saturating_sub(*rewrite as usize).max(commit);
+                    if from < entries.len() {
+                        t = t.max(last_term + 1);
+                        let n = (entries.len() - from) as u8;
+                        entries.truncate(from);
+                        entries.extend(self.entries(from as u64 + 1, n, t));
+                        first_rewritten = Some(from as u64 + 1);
+                        ctx.label("step:install_snapshot over a conflicting uncommitted suffix");
+                    }
+                }
                 if *extra > 0 {
                     let more = self.entries(last_idx + 1, *extra as u8, t);
                     entries.extend(more);
@@ -399,8 +421,9 @@ impl Driver {
                 h.update(&data);
                 let hash: [u8; 32] = h.finalize().into();
                 let li = entries.len() as u64;
-                // the install replaces the whole log: entries beyond the snapshot are dropped by design
-                self.step_truncates_from = Some(li + 1);
+                // the install replaces the whole log: entries beyond the snapshot (and a rewritten
+                // suffix) are dropped by design
+                self.step_truncates_from = Some(first_rewritten.unwrap_or(li + 1));
                 let meta = SnapshotMetadata::new(li, snap_term, hash, peers(), data.len() as u64);
                 if self.node.install_snapshot(meta, &data).is_err() {
                     return Outcome::Other;
